@@ -641,10 +641,15 @@ async fn direct(plan: Plan, world: Shared) -> RunOutput {
     // middle of such an exchange at this very instant: give it a moment to settle back into idle
     // before "is the server idling?" is sampled. (A client that is idling already — the normal
     // case — passes straight through.)
-    for _ in 0..100 {
+    // The moment is five seconds on an ordinary link; on a slow one (seconds per direction) such
+    // an exchange takes several round trips, so the allowance grows with the planned latencies.
+    let rtt_ms = plan.net.s2c_latency_ms as u64
+        + plan.net.c2s_latency_ms.iter().copied().max().unwrap_or(0) as u64;
+    let settle_polls = (5_000 + 5 * rtt_ms) / 50;
+    for _ in 0..settle_polls {
         let settled = {
             let w = world.lock().unwrap_or_else(|e| e.into_inner());
-            w.mpd.idle_waiting || w.end.is_some() || w.mpd.closed
+            (w.mpd.idle_waiting && w.s2c_read >= w.s2c.len()) || w.end.is_some() || w.mpd.closed
         };
         if settled {
             break;
